@@ -27,35 +27,41 @@ structure Parsed where
   reversed : Bool     -- axis recorded in `reverse`
   deriving Repr, DecidableEq
 
+/-- the `if step < 0:` block: a decreasing `slice(start, stop, step)` (as returned by `indices`) becomes an
+    increasing slice selecting the same positions, or the zero-sized slice when nothing is selected -/
+def reverseSlice (start stop step : Int) : PSlice × Bool :=
+  if start ≤ stop then (PSlice.ofInts 0 0 1, false)
+  else
+    let step := step * (-1)
+    let div := (start - stop - 1) / step
+    let divStep := div * step
+    let start := start - divStep
+    let stop := start + divStep + 1
+    (PSlice.ofInts start stop step, true)
+
+/-- `div, mod = divmod(stop - start, step)`; zero-sized, or `div` rounded up -/
+def impliedOf (start stop step : Int) : Int :=
+  let div := (stop - start) / step
+  let mod := (stop - start) % step
+  if div = 0 ∧ mod = 0 then 0 else if mod ≠ 0 then div + 1 else div
+
 /-- slice branch of `parse_assignment_indices` for one (already normalised) slice `idx` on an axis of
     length `size`; `none` = `idx.indices` raised (step 0). -/
 def parseSlice (size : Nat) (idx : PSlice) : Option Parsed :=
   match pyIndices size idx with
   | none => none
   | some (start, stop, step) =>
-    let stopO : Option Int := if step < 0 ∧ stop = -1 then none else some stop
-    let index0 : PSlice := ⟨some start, stopO, some step⟩
-    let (index, rev) : PSlice × Bool :=
+    -- `if step < 0 and stop == -1: stop = None`
+    let index0 : PSlice := ⟨some start, if step < 0 ∧ stop = -1 then none else some stop, some step⟩
+    let ir : PSlice × Bool :=
       if step < 0 then
         match pyIndices size index0 with
         | none => (index0, false)      -- cannot happen: step ≠ 0
-        | some (start, stop, step) =>
-          if start ≤ stop then (PSlice.ofInts 0 0 1, false)
-          else
-            let step := step * (-1)
-            let div := (start - stop - 1) / step
-            let divStep := div * step
-            let start := start - divStep
-            let stop := start + divStep + 1
-            (PSlice.ofInts start stop step, true)
+        | some (a, b, c) => reverseSlice a b c
       else (index0, false)
-    match pyIndices size index with
+    match pyIndices size ir.1 with
     | none => none
-    | some (start, stop, step) =>
-      let div := (stop - start) / step
-      let mod := (stop - start) % step
-      let implied := if div = 0 ∧ mod = 0 then 0 else if mod ≠ 0 then div + 1 else div
-      some ⟨index, implied, rev⟩
+    | some (a, b, c) => some ⟨ir.1, impliedOf a b c, ir.2⟩
 
 /-- `[(s, s + dim) for s, dim in zip(cumsum0, chunks)]` -/
 def locationsFrom (acc : Int) : List Nat → List (Int × Int)
